@@ -677,12 +677,14 @@ impl CompactThetaSketch {
                     .read_u32_le()
                     .map_err(insufficient_data("<unused_u32>"))?;
                 let entries = Self::read_entries(&mut cursor, num_entries, MAX_THETA)?;
+                // An exact-mode image holding entries describes a non-empty sketch.
+                let empty = entries.is_empty();
                 Ok(Self {
                     entries,
                     theta: MAX_THETA,
                     seed_hash,
                     ordered: true,
-                    empty: true,
+                    empty,
                 })
             }
             V2_PREAMBLE_ESTIMATE => {
